@@ -11,4 +11,110 @@ theorem C10_tables :
     (Gen.lineLength.lookup Gen.defaultVersion).isSome = true ∧
     Gen.textwrapBreakLongWords = true ∧ Gen.textwrapMaxLinesIsNone = true := by decide
 
+/-! ## the greedy-fill invariant of `_wrap_chunks` -/
+
+theorem fillLine_append (width : Nat) : ∀ (chunks : List Str) (curLen : Nat),
+    (fillLine width curLen chunks).1 ++ (fillLine width curLen chunks).2 = chunks
+  | [], _ => by simp [fillLine]
+  | c :: rest, curLen => by
+    unfold fillLine
+    split
+    · simp [fillLine_append width rest (curLen + c.length)]
+    · simp
+
+theorem fillLine_len (width : Nat) : ∀ (chunks : List Str) (curLen : Nat), curLen ≤ width →
+    curLen + (fillLine width curLen chunks).1.flatten.length ≤ width
+  | [], _, h => by simp [fillLine]; exact h
+  | c :: rest, curLen, h => by
+    unfold fillLine
+    split
+    · rename_i hfit
+      have := fillLine_len width rest (curLen + c.length) hfit
+      simp only [List.flatten_cons, List.length_append]; omega
+    · simp; exact h
+
+theorem finishLine_flatten (width : Nat) (taken rest : List Str) :
+    (finishLine width taken rest).1.flatten ++ (finishLine width taken rest).2.flatten = taken.flatten ++ rest.flatten := by
+  cases rest with
+  | nil => simp [finishLine]
+  | cons c rest' =>
+    simp only [finishLine]
+    split
+    · simp [List.flatten_append, List.append_assoc]
+      rw [← List.append_assoc (List.take _ c), List.take_append_drop]
+    · rfl
+
+theorem finishLine_len (width : Nat) (taken rest : List Str) (hw : 1 ≤ width) (h : taken.flatten.length ≤ width) :
+    (finishLine width taken rest).1.flatten.length ≤ width := by
+  cases rest with
+  | nil => simpa [finishLine] using h
+  | cons c rest' =>
+    simp only [finishLine]
+    split
+    · have : ¬ width < 1 := by omega
+      simp only [this, if_false, List.flatten_append, List.length_append, List.flatten_cons, List.flatten_nil,
+        List.append_nil, List.length_take]
+      omega
+    · exact h
+
+theorem oneLine_flatten (width : Nat) (chunks : List Str) :
+    (oneLine width chunks).1.flatten ++ (oneLine width chunks).2.flatten = chunks.flatten := by
+  unfold oneLine
+  rw [finishLine_flatten, ← List.flatten_append, fillLine_append]
+
+theorem oneLine_len (width : Nat) (chunks : List Str) (hw : 1 ≤ width) :
+    (oneLine width chunks).1.flatten.length ≤ width := by
+  unfold oneLine
+  apply finishLine_len _ _ _ hw
+  have := fillLine_len width chunks 0 (Nat.zero_le _)
+  omega
+
+/-- `_wrap_chunks`: every line fits, provided both indents leave at least one column. -/
+theorem wrapChunks_width (W : Nat) (init subs : Str) (hi : init.length < W) (hs : subs.length < W)
+    (first : Bool) (chunks : List Str) :
+    ∀ l ∈ wrapChunks W init subs first chunks, l.length ≤ W := by
+  fun_induction wrapChunks W init subs first chunks with
+  | case1 => simp
+  | case2 first c rest indent r hempty ih => exact ih
+  | case3 first c rest indent r hne ih =>
+    intro l hl
+    simp only [List.mem_cons] at hl
+    rcases hl with rfl | hl
+    · have hind : indent.length < W := by
+        simp only [indent]; split <;> assumption
+      have := oneLine_len (W - indent.length) (c :: rest) (by omega)
+      simp only [List.length_append]
+      simp only [r] at *
+      omega
+    · exact ih l hl
+
+/-- the text of a wrapped paragraph with the indents taken off again -/
+def unindent (init subs : Str) : Bool → List Str → Str
+  | _, [] => []
+  | first, l :: ls => l.drop (if first then init.length else subs.length) ++ unindent init subs false ls
+
+/-- `_wrap_chunks` neither loses nor invents a character: taking the indents off and concatenating gives the
+    chunks back (greedy-fill invariant, all chunk lists, all widths). -/
+theorem wrapChunks_flatten (W : Nat) (init subs : Str) (first : Bool) (chunks : List Str) :
+    unindent init subs first (wrapChunks W init subs first chunks) = chunks.flatten := by
+  fun_induction wrapChunks W init subs first chunks with
+  | case1 => simp [unindent]
+  | case2 first c rest indent r hempty ih =>
+    rw [ih]
+    have h := oneLine_flatten (W - indent.length) (c :: rest)
+    have h1 : r.1 = [] := by simpa using hempty
+    simp only [r] at h1
+    rw [h1] at h
+    simpa using h
+  | case3 first c rest indent r hne ih =>
+    simp only [unindent]
+    rw [ih]
+    have h := oneLine_flatten (W - indent.length) (c :: rest)
+    have : (indent ++ r.1.flatten).drop (if first then init.length else subs.length) = r.1.flatten := by
+      have : (if first then init.length else subs.length) = indent.length := by
+        simp only [indent]; split <;> rfl
+      rw [this, List.drop_left]
+    rw [this]
+    exact h
+
 end MontePyVerif.C10
